@@ -23,6 +23,7 @@ type Engine struct {
 	spkgs  []*ssa.Package
 	funcs  map[string]*ssa.Function // key: funcKey
 	byPkg  map[string]*packages.Package
+	sccOf  map[*ssa.Function]int
 	ctrs   map[string]*Contract // key: funcKey
 	specs  map[string]*SpecFunc // spec functions (global namespace)
 	axioms []*Axiom
